@@ -11,6 +11,7 @@ import (
 	"fmt"
 	"sort"
 	"sync"
+	"time"
 
 	"github.com/ipfs/boxo/path"
 	"github.com/ipfs/go-cid"
@@ -54,6 +55,7 @@ type Store struct {
 	coreiface.CoreAPI // nil: any other method panics, on purpose
 
 	mu             sync.Mutex
+	faultMu        sync.Mutex
 	blocks         map[string][]byte
 	Writes         []WriteRec
 	Pins           []string
@@ -73,6 +75,11 @@ type Store struct {
 	Parked  bool
 	pending []*getReq
 	reqSeq  int
+
+	// virtual-time mode (E2-T, inside a synctest bubble): Get answers after Delay[cid] of (virtual)
+	// time; stalled blocks wait for the context only
+	VT    bool
+	Delay map[string]time.Duration
 
 	OnAdd   func(rec WriteRec, n ipld.Node) // monitor hook, called with the lock released
 	OnFault func(kind string)
@@ -176,7 +183,7 @@ func (d *dagSvc) Add(ctx context.Context, n ipld.Node) error {
 	if kind, ok := s.AddFailAt[idx]; ok {
 		s.mu.Unlock()
 		if s.OnFault != nil {
-			s.OnFault("add-" + kind)
+			s.fault("add-" + kind)
 		}
 		if kind == "lost" {
 			return nil
@@ -211,7 +218,7 @@ func (s *Store) answer(c cid.Cid) (ipld.Node, error) {
 	alt := s.Alt[c.String()]
 	s.mu.Unlock()
 	if f != FaultNone && s.OnFault != nil {
-		s.OnFault("get-" + f.String())
+		s.fault("get-" + f.String())
 	}
 	switch f {
 	case FaultNotFound:
@@ -235,11 +242,33 @@ func (d *dagSvc) Get(ctx context.Context, c cid.Cid) (ipld.Node, error) {
 		s.ReqAfterCancel++
 	}
 	f := s.GetFaults[c.String()]
+	if s.VT {
+		d := s.Delay[c.String()]
+		s.mu.Unlock()
+		if f == FaultStall {
+			if s.OnFault != nil {
+				s.fault("get-stall")
+			}
+			<-ctx.Done()
+			return nil, ctx.Err()
+		}
+		if d > 0 {
+			if s.OnFault != nil {
+				s.fault("get-slow")
+			}
+			select {
+			case <-time.After(d):
+			case <-ctx.Done():
+				return nil, ctx.Err()
+			}
+		}
+		return s.answer(c)
+	}
 	if !s.Parked {
 		s.mu.Unlock()
 		if f == FaultStall {
 			if s.OnFault != nil {
-				s.OnFault("get-stall")
+				s.fault("get-stall")
 			}
 			<-ctx.Done()
 			return nil, ctx.Err()
@@ -271,7 +300,7 @@ func (s *Store) parkGet(ctx context.Context, req *getReq) (ipld.Node, error) {
 	if stall {
 		// released as a stall: wait for cancellation only
 		if s.OnFault != nil {
-			s.OnFault("get-stall")
+			s.fault("get-stall")
 		}
 		<-ctx.Done()
 		return nil, ctx.Err()
@@ -323,3 +352,10 @@ func (d *dagSvc) Pinning() ipld.NodeAdder                            { return d 
 // e1AddHook lets the E1 engine intercept Add without any TSan-visible
 // synchronisation (set once in init of e1.go).
 var e1AddHook func(n ipld.Node) (bool, error)
+
+// fault reports a fired fault to the run; serialised because in virtual-time mode requests run concurrently.
+func (s *Store) fault(kind string) {
+	s.faultMu.Lock()
+	defer s.faultMu.Unlock()
+	s.OnFault(kind)
+}
